@@ -67,7 +67,9 @@ theorem leaf_oth {reg : StrRegistry} {x : Ty} (h : Ty.isLeaf x = true) (ht : ∀
 theorem unionOther_leaf {x : Ty} (hr : RawN cfg.lit x) (hl : Ty.isLeaf x = true) {other : List Ty}
     (h : unionOther cfg e [x] = .ok other) : other = [x] := by
   have hno : ∀ m ∈ [x], m.isOpt = false := by intro m hm; simp at hm; subst hm; exact hr.not_opt
-  obtain ⟨eo, es, rfl, xo, xs⟩ := unionOther_spec hno h
+  have hnu : ∀ m ∈ [x], m.isUnion = false := by
+    intro m hm; simp at hm; subst hm; cases m <;> simp [Ty.isLeaf] at hl <;> rfl
+  obtain ⟨eo, es, rfl, xo, xs⟩ := unionOther_spec hno hnu h
   have ho : [x].filterMap objF = [] := by cases x <;> simp [Ty.isLeaf] at hl <;> rfl
   have hli : [x].filterMap listE = [] := by cases x <;> simp [Ty.isLeaf] at hl <;> rfl
   have hd : [x].filterMap dictE = [] := by cases x <;> simp [Ty.isLeaf] at hl <;> rfl
@@ -266,7 +268,7 @@ theorem tc_step {n : Nat} (ih : Cong cfg e n) :
       obtain ⟨b, rfl, _⟩ := hform m hm
       exact List.ne_nil_of_mem (mem_filterMap_listE.2 hm)
     obtain ⟨other, ho, hz⟩ := optimizeUnion_single' h₂
-    obtain ⟨eo, es, rfl, xo, xs⟩ := unionOther_spec mok.noopt ho
+    obtain ⟨eo, es, rfl, xo, xs⟩ := unionOther_spec mok.noopt mok.flat ho
     have e1 : ms.filter (isOth cfg.reg) = [] := List.filter_eq_nil_iff.2 (fun m hm => by
       obtain ⟨b, rfl, _⟩ := hform m hm; simp [isOth])
     have e2 : ms.filterMap objF = [] := List.filterMap_eq_nil_iff.2 (fun m hm => by
@@ -297,7 +299,7 @@ theorem tc_step {n : Nat} (ih : Cong cfg e n) :
       obtain ⟨b, rfl, _⟩ := hform m hm
       exact List.ne_nil_of_mem (mem_filterMap_dictE.2 hm)
     obtain ⟨other, ho, hz⟩ := optimizeUnion_single' h₂
-    obtain ⟨eo, es, rfl, xo, xs⟩ := unionOther_spec mok.noopt ho
+    obtain ⟨eo, es, rfl, xo, xs⟩ := unionOther_spec mok.noopt mok.flat ho
     have e1 : ms.filter (isOth cfg.reg) = [] := List.filter_eq_nil_iff.2 (fun m hm => by
       obtain ⟨b, rfl, _⟩ := hform m hm; simp [isOth])
     have e2 : ms.filterMap objF = [] := List.filterMap_eq_nil_iff.2 (fun m hm => by
@@ -332,7 +334,7 @@ theorem tc_step {n : Nat} (ih : Cong cfg e n) :
       obtain ⟨B', e', hn⟩ := hform _ (mem_filterMap_objF.1 hB)
       cases e'; exact hn
     obtain ⟨other, ho, hz⟩ := optimizeUnion_single' h₂
-    obtain ⟨eo, es, rfl, xo, xs⟩ := unionOther_spec mok.noopt ho
+    obtain ⟨eo, es, rfl, xo, xs⟩ := unionOther_spec mok.noopt mok.flat ho
     have e1 : ms.filter (isOth cfg.reg) = [] := List.filter_eq_nil_iff.2 (fun m hm => by
       obtain ⟨b, rfl, _⟩ := hform m hm; simp [isOth])
     have e2 : ms.filterMap listE = [] := List.filterMap_eq_nil_iff.2 (fun m hm => by
